@@ -29,10 +29,10 @@
       [doc_ok]:            what validation guarantees, as an execution over types (C04 has not yet
                            proved that an accepted document satisfies it).
     A failure is [PContractBroken]; the correspondence check reports it as an oracle failure.
-    [doc_ok] also contains C01's hypothesis that every @skip/@include condition has a boolean value
-    among the coerced variables; a validated request can violate that one (a nullable variable with
-    a default, given null): then the executor model is run without a theorem about it:
-    [PUnevaluable].  A failing CoerceVariableValues, an undetermined operation: [PExecuted None [e]]
+    The check is C01's [doc_ok_nodirs]: [doc_ok] without the requirement that every @skip/@include
+    condition has a boolean value among the coerced variables — a validated request can violate that
+    one (a nullable variable with a default, given null); the executor then leaves the selection
+    out and reports an error, and C01's dirs-free theorems cover it.  A failing CoerceVariableValues, an undetermined operation: [PExecuted None [e]]
     (no data, that one error), as ExecuteRequest answers. *)
 From Coq Require Import List NArith ZArith Bool.
 From ApiFu Require Import Base.Sexp.
@@ -49,7 +49,6 @@ Inductive presult :=
 | PSyntax (e : Syn.Ast.pos) (es : list Syn.Ast.pos)             (* Response{Errors}: syntax errors *)
 | PInvalid (e : Vld.Ast.verror) (es : list Vld.Ast.verror)      (* Response{Errors}: validation errors *)
 | PExecuted (data : option ExeA.ArgData.json) (errs : list ExeA.ArgData.gerror)
-| PUnevaluable (r : ExeA.ArgModel.run_result)
 | PContractBroken (c : contract)
 | PPanic (s : stage_id)
 | POutOfFuel (s : stage_id).
@@ -102,8 +101,7 @@ Definition execute_doc (ES : ExeA.ArgData.schema) (d : Syn.Ast.document) (opname
           let E := ExeA.ArgArgs.env_of_vars vv in
           let fuel := ExeA.ArgModel.default_fuel D in
           if negb (ExeA.ArgHyps.doc_positions_okb D) then PContractBroken CPositions
-          else if negb (ExeA.ArgHyps.dirs_evaluable D E) then PUnevaluable (ExeA.ArgModel.run ExeA.ArgModel.fixed ES D E fuel W)
-          else if negb (ExeA.ArgSpec.doc_ok ES D E fuel fuel) then PContractBroken CDocOk
+          else if negb (ExeA.ArgSpec.doc_ok_nodirs ES D E fuel fuel) then PContractBroken CDocOk
           else of_run (ExeA.ArgModel.run ExeA.ArgModel.fixed ES D E fuel W)
       | Val.Values.Err =>
           (* CoerceVariableValues fails: no data, that one error *)
